@@ -2021,6 +2021,7 @@ class PyCdlib:
          The length to use for the boot file.
         """
         length = entry.length()
+        from_table = False
         entry_extent = entry.get_rba()
         orig = self._cdfp.tell()
         try:
@@ -2035,10 +2036,11 @@ class PyCdlib:
                     self._cdfp.seek(entry_extent * self.logical_block_size)
                     if self._calculate_eltorito_boot_info_table_csum(self._cdfp, orig_len) == csum:
                         length = orig_len
+                        from_table = True
         finally:
             self._cdfp.seek(orig)
 
-        return length
+        return length, from_table
 
     def _link_eltorito(self, extent_to_inode):
         # type: (Dict[int, inode.Inode]) -> None
@@ -2065,7 +2067,7 @@ class PyCdlib:
             if entry_extent in extent_to_inode:
                 ino = extent_to_inode[entry_extent]
             else:
-                length = self._hidden_boot_file_length(entry)
+                length, from_table = self._hidden_boot_file_length(entry)
                 # The number of sectors to load may be more than the file
                 # holds; the file cannot reach into the data that follows it.
                 following = [extent for extent in extent_to_inode if extent > entry_extent]
@@ -2076,6 +2078,11 @@ class PyCdlib:
                 following.append(self.pvd.space_size - (1 if self._has_udf else 0))
                 room = (min(following) - entry_extent) * self.logical_block_size
                 if 0 < room < length:
+                    length = room
+                elif not from_table and room > length:
+                    # Nothing records the real length; the file may be longer
+                    # than the sectors to load, and what lies up to the next
+                    # file belongs to nothing else.
                     length = room
                 ino = inode.Inode()
                 ino.parse(entry_extent, length, self._cdfp,
